@@ -300,18 +300,18 @@ def unhex(h):
 
 
 def parse_dump(obs_line):
-    """harness line `ok | ... || okl=<hex> serial=<hex> cuda=<hex> cuda.launcher=<hex> ...` -> dict"""
-    if "||" not in obs_line:
+    """harness line `ok | ... @@SRC okl=<hex> serial=<hex> cuda=<hex> cuda.launcher=<hex> ...` -> dict"""
+    if " @@SRC " not in obs_line:
         return None
     d = {}
-    for kv in obs_line.split("||", 1)[1].split():
+    for kv in obs_line.split(" @@SRC ", 1)[1].split():
         k, _, v = kv.partition("=")
         d[k] = unhex(v)
     return d
 
 
 def strip_dump(obs_line):
-    return obs_line.split(" ||", 1)[0]
+    return obs_line.split(" @@SRC ", 1)[0]
 
 
 def clean_source(src):
@@ -328,9 +328,13 @@ ARGS_DECL = "const int " + ", ".join("%s = v.%s" % (x, x) for x in VARS)
 ARGS_CALL = ", ".join("v.%s" % x for x in VARS)
 
 
-def emu_unit(kid, fname, ref_body, srcs):
+def emu_unit(kid, fname, ref_body, srcs, extra=None):
     """C++ text for one kernel: reference loop + every backend's translation + run wrappers.
-    `fname` is the OKL kernel name (k<id>); srcs maps serial/openmp/<mode>/<mode>.launcher to source text."""
+    `fname` is the OKL kernel name (k<id>); srcs maps serial/openmp/<mode>/<mode>.launcher to source text.
+    extra = {"host": ", emu_x", "dev": ", emu_x", "launch": ", (occa::modeMemory_t*) 0"} appends one more
+    argument (C19: the @dim array) to the calls of the kept-loop kernel / the device kernel / the launcher."""
+    extra = extra or {"host": "", "dev": "", "launch": ""}
+    ARGS_HOST, ARGS_DEV, ARGS_LAUNCH = ARGS_CALL + extra["host"], ARGS_CALL + extra["dev"], ARGS_CALL + extra["launch"]
     o = ["namespace K%d {" % kid,
          "static void ref(const Vals &v) { %s; (void) N; (void) M; (void) a; (void) b; (void) c; (void) s; (void) t;\n"
          "  long long guard = 0; (void) guard;\n%s\n}" % (ARGS_DECL, ref_body)]
@@ -342,7 +346,7 @@ def emu_unit(kid, fname, ref_body, srcs):
         o.append("namespace %s {" % m)
         if m in ("serial", "openmp"):
             o.append(clean_source(srcs[m]))
-            o.append("static void run(const Vals &v) { %s(%s); }" % (fname, ARGS_CALL))
+            o.append("static void run(const Vals &v) { %s(%s); }" % (fname, ARGS_HOST))
         else:
             dev = "_occa_%s_0" % fname
             if m == "metal":
@@ -353,17 +357,17 @@ def emu_unit(kid, fname, ref_body, srcs):
             o.append(clean_source(srcs[m + ".launcher"]))
             if m in ("cuda", "hip"):
                 call = ("blockIdx.x = bx; blockIdx.y = by; blockIdx.z = bz; threadIdx.x = tx; threadIdx.y = ty; threadIdx.z = tz; "
-                        "%s(%s);" % (dev, ARGS_CALL))
+                        "%s(%s);" % (dev, ARGS_DEV))
                 body = "emu::grid(od, id, [&](size_t bx, size_t by, size_t bz, size_t tx, size_t ty, size_t tz) { %s });" % call
             elif m == "opencl":
                 # clEnqueueNDRangeKernel(global = outer * inner, local = inner)
                 call = ("emu_group[0] = bx; emu_group[1] = by; emu_group[2] = bz; emu_local[0] = tx; emu_local[1] = ty; emu_local[2] = tz; "
-                        "%s(%s);" % (dev, ARGS_CALL))
+                        "%s(%s);" % (dev, ARGS_DEV))
                 body = ("occa::dim full = od * id; occa::dim groups = full / id; "
                         "emu::grid(groups, id, [&](size_t bx, size_t by, size_t bz, size_t tx, size_t ty, size_t tz) { %s });" % call)
             elif m == "metal":
                 call = ("uint3 g = {(unsigned) bx, (unsigned) by, (unsigned) bz}; uint3 l = {(unsigned) tx, (unsigned) ty, (unsigned) tz}; "
-                        "%s(%s, g, l);" % (dev, ARGS_CALL))
+                        "%s(%s, g, l);" % (dev, ARGS_DEV))
                 body = "emu::grid(od, id, [&](size_t bx, size_t by, size_t bz, size_t tx, size_t ty, size_t tz) { %s });" % call
             else:
                 # dpcpp/kernel.cpp::deviceRun
@@ -371,10 +375,10 @@ def emu_unit(kid, fname, ref_body, srcs):
                         "  ::sycl::range<3> global_range{fullDims.z, fullDims.y, fullDims.x};\n"
                         "  ::sycl::range<3> local_range{id.z, id.y, id.x};\n"
                         "  ::sycl::nd_range<3> ndrange{global_range, local_range};\n"
-                        "  ::sycl::queue q; %s(&q, &ndrange, %s);" % (dev, ARGS_CALL))
+                        "  ::sycl::queue q; %s(&q, &ndrange, %s);" % (dev, ARGS_DEV))
             o.append("static void run(const Vals &v) {\n  emu::FakeKernel fk;\n"
                      "  fk.body = [&](const occa::dim &od, const occa::dim &id) {\n  %s\n  };\n"
-                     "  occa::modeKernel_t *dk[1] = {&fk};\n  %s(dk, %s);\n}" % (body, fname, ARGS_CALL))
+                     "  occa::modeKernel_t *dk[1] = {&fk};\n  %s(dk, %s);\n}" % (body, fname, ARGS_LAUNCH))
         o.append("}")
     o.append("static const Entry entries[] = {%s};" % ", ".join('{"%s", %s::run}' % (m, m) for m in modes))
     o.append("static const int nentries = %d;" % len(modes))
@@ -425,6 +429,7 @@ using emu::rec;
 struct Vals { int N, M, a, b, c, s, t; };
 struct Entry { const char *mode; void (*run)(const Vals&); };
 static bool runaway = false;
+static int emu_x[4];        // C19: the @dim array (only its address is used)
 #define GUARD if (++guard > (long long) emu::CAP) { runaway = true; return; }
 """
 
@@ -498,9 +503,27 @@ def ref_body_for(kid, loops):
 # ----------------------------------------------------------------------------- the check pipeline
 class Case:
     """one generated kernel: loops (outermost first) + the value tuples it is run with"""
+    extra = None
+
     def __init__(self, kid, loops, values):
         self.kid, self.loops, self.values = kid, loops, values
         self.op = kernel_op(kid, loops)
+
+    def ref_body(self):
+        return ref_body_for(self.kid, self.loops)
+
+    def rline(self, v):
+        return "R %d %s | %s" % (self.kid, " ".join(l.token() for l in self.loops), vals_line(v))
+
+    def describe(self):
+        return " ".join(l.header() for l in self.loops)
+
+    def parse_model(self, mline):
+        md = {}
+        for seg in mline.split(" | "):
+            tag, _, rest = seg.partition(" ")
+            md[tag] = [tuple(int(x) for x in t.split(",")) for t in rest.split()]
+        return md
 
 
 def vals_line(env):
@@ -566,7 +589,7 @@ def run_cases(ck, hb, db, cases, label, batch=60, hist=8, text=True):
     translation run under the launch emulation vs the native sequential loop), numeric correspondence
     (model's seq / serial / launch lists vs the executed ones)."""
     if hb is None or db is None or not cases:
-        return
+        return {}
     C = ck.cov["counters"]
     hs = [[c.op for c in cases[i:i + hist]] for i in range(0, len(cases), hist)]
     env = dict(HENV)
@@ -606,12 +629,12 @@ def run_cases(ck, hb, db, cases, label, batch=60, hist=8, text=True):
     results = {}
     for i in range(0, len(runnable), batch):
         part = runnable[i:i + batch]
-        units = [emu_unit(c.kid, "k%d" % c.kid, ref_body_for(c.kid, c.loops), sources[c.kid]) for c in part]
+        units = [emu_unit(c.kid, "k%d" % c.kid, c.ref_body(), sources[c.kid], c.extra) for c in part]
         exe, err = emu.compile(units, [c.kid for c in part])
         if exe is None:
             # find the culprit(s) one by one: a translation that is not valid C++ is itself a failure
             for c in part:
-                exe1, err1 = emu.compile([emu_unit(c.kid, "k%d" % c.kid, ref_body_for(c.kid, c.loops), sources[c.kid])], [c.kid])
+                exe1, err1 = emu.compile([emu_unit(c.kid, "k%d" % c.kid, c.ref_body(), sources[c.kid], c.extra)], [c.kid])
                 if exe1 is None:
                     msg = [l for l in err1.splitlines() if "error" in l][:2]
                     ck.report_failure(label, [c.op], ["translated source does not compile: " + " | ".join(msg)[:300]], ["compiles"],
@@ -633,7 +656,7 @@ def run_cases(ck, hb, db, cases, label, batch=60, hist=8, text=True):
         for v in c.values:
             key = (c.kid, tuple(v[x] for x in VARS))
             if key in results and isinstance(results[key].get("ref"), list):
-                rlines.append("R %d %s | %s" % (c.kid, " ".join(l.token() for l in c.loops), vals_line(v)))
+                rlines.append(c.rline(v))
                 keys.append((c, v, key))
     mres = ck.run_model(db, [rlines], timeout=3000)[0] if rlines else []
     nonempty = distinct = 0
@@ -641,12 +664,11 @@ def run_cases(ck, hb, db, cases, label, batch=60, hist=8, text=True):
     for (c, v, key), mline in zip(keys, mres + ["MISSING"] * (len(keys) - len(mres))):
         res = results[key]
         ref = res["ref"]
-        md = {}
-        for seg in mline.split(" | "):
-            tag, _, rest = seg.partition(" ")
-            md[tag] = [tuple(int(x) for x in t.split(",")) for t in rest.split()]
+        md = c.parse_model(mline)
         ck.cov["evaluations"] += len(res) - 1
         sig = hashlib.sha1(("%s|%s" % (c.op.split(" ", 2)[2], key[1])).encode()).hexdigest()
+        if md.get("error"):
+            ck.report_failure(label, [c.op, "V " + vals_line(v)], ["(n/a)"], [md["error"]], [])
         if sig not in seen:
             seen.add(sig)
             if ref:
@@ -676,10 +698,33 @@ def run_cases(ck, hb, db, cases, label, batch=60, hist=8, text=True):
     ck.cov["distinct_nontrivial"] += distinct
     if keys:
         c, v, key = keys[len(keys) // 2]
-        ck.cov["samples"].append({"kernel": " ".join(l.header() for l in c.loops), "values": vals_line(v),
+        ck.cov["samples"].append({"kernel": c.describe(), "values": vals_line(v),
                                   "sequential": fmt(results[key]["ref"]),
                                   "backends": {m: (x if isinstance(x, str) else fmt(x)) for m, x in results[key].items() if m != "ref"}})
     emu.cleanup()
+    # C19: cases with `.bijection = D` ran over all in-range tuples: the executed indices must be exactly 0 .. prod(D)-1
+    for c in cases:
+        D = getattr(c, "bijection", None)
+        if not D:
+            continue
+        n = 1
+        for d in D:
+            n *= d
+        for m in MODES:
+            got = []
+            for v in c.values:
+                key = (c.kid, tuple(v[x] for x in VARS))
+                r_ = results.get(key, {})
+                x = r_.get(m)
+                if x == "=":
+                    x = r_.get("ref")
+                if isinstance(x, list) and len(x) == 1:
+                    got.append(x[0][1])
+            if len(got) == len(c.values) and sorted(got) != list(range(n)):
+                ck.report_failure(label, [c.op], ["%s: indices %s" % (m, sorted(got))], ["a bijection onto [0, %d)" % n],
+                                  ["%s: in-range index tuples of @dim%s are not mapped one-to-one onto [0, %d): %s" % (m, tuple(D), n, sorted(got))])
+        C["bijection_cases"] = C.get("bijection_cases", 0) + 1
+    return results
 
 
 def compress_oracles(os_):
@@ -692,7 +737,7 @@ def compress_oracles(os_):
 
 
 def first_seg_diff(a, b):
-    sa, sb = a.split(" | "), b.split(" | ")
+    sa, sb = a.split(" @@ "), b.split(" @@ ")
     for i in range(max(len(sa), len(sb))):
         x = sa[i] if i < len(sa) else "<none>"
         y = sb[i] if i < len(sb) else "<none>"
